@@ -153,7 +153,7 @@ def parse_json_prints(text):
 
 
 def run_monitor(trace, tag):
-    rc, text = tlc_raw("Monitor.tla", "Monitor.cfg", os.path.join(OUT, "meta", tag), workers=1, xmx="3g",
+    rc, text = tlc_raw("Monitor.tla", "Monitor.cfg", os.path.join(OUT, "meta", "%s_%d" % (tag, os.getpid())), workers=1, xmx="3g",
                        env={"TRACE": trace}, deque=True, timeout=3400, light=True)
     objs = parse_json_prints(text)
     verdicts = [o for o in objs if "verdict" in o]
@@ -179,7 +179,8 @@ def run_model(name, constants=None, invariants=None, workers=None, timeout=3000,
     JSON objects printed by the model (REPLAY lines), violated invariants, per-action coverage."""
     tag = tag or name
     os.makedirs(os.path.join(OUT, "meta"), exist_ok=True)
-    cfgp = os.path.join(OUT, "meta", "MC_%s.cfg" % tag)
+    # (the process id keeps checks of different properties apart when they run at the same time)
+    cfgp = os.path.join(OUT, "meta", "MC_%s_%d.cfg" % (tag, os.getpid()))
     with open(cfgp, "w") as f:
         f.write("SPECIFICATION %s\n" % spec)
         if constants:
@@ -189,9 +190,13 @@ def run_model(name, constants=None, invariants=None, workers=None, timeout=3000,
         if properties:
             f.write("PROPERTIES " + " ".join(properties) + "\n")
         f.write("CHECK_DEADLOCK FALSE\n")
-    rc, text = tlc_raw("MC_%s.tla" % name, cfgp, os.path.join(OUT, "meta", "mc_" + tag),
+    rc, text = tlc_raw("MC_%s.tla" % name, cfgp, os.path.join(OUT, "meta", "mc_%s_%d" % (tag, os.getpid())),
                        workers=workers or min(NPROC, 8), xmx=xmx, timeout=timeout, env=env,
                        extra=(["-simulate", "num=%d" % simulate[0], "-depth", str(simulate[1])] if simulate else None))
+    try:
+        os.remove(cfgp)
+    except OSError:
+        pass
     m = RE_STATES.search(text)
     if not m and simulate:
         # simulation mode reports "The number of states generated: N"
